@@ -17,6 +17,8 @@ def make_jobs(prop, r, n, quick):
         nfn = r.choice([2, 3, 3, 4])
         feats = {"C02": ("call", "batch", "res", "raise", "bad"), "C10": ("call", "call", "batch", "res", "raise"),
                  "C15": ("call", "batch", "batch", "raise", "bad"), "C16": ("call", "call", "batch", "raise")}.get(prop, ("call", "batch", "res", "raise"))
+        if i % 2 == 1:
+            feats = feats + ("mods",)        # inner calls and batches made through ignore_result() / force_local()
         p = progs.random_prog(r, nfn=nfn, features=feats)
         nops = r.randint(5, 9)
         ops = progs.random_ops(r, nfn, nops, ctx=(prop in ("C16", "C10") or r.random() < 0.3), batch=(prop != "C16" or r.random() < 0.3),
@@ -71,7 +73,7 @@ def mech_jobs(r, n):
     jobs = []
     for i in range(n):
         nfn = r.choice([2, 3, 3, 4])
-        p = progs.random_prog(r, nfn=nfn, features=("call", "call", "batch", "res", "raise", "bad"))
+        p = progs.random_prog(r, nfn=nfn, features=("call", "call", "batch", "res", "raise", "bad") + (("mods",) if i % 2 else ()))
         ops = []
         for o in progs.random_ops(r, nfn, r.randint(4, 8), ctx=True, batch=True):
             if o["op"] == "Call":
